@@ -177,6 +177,67 @@ pub fn enumerated() -> Vec<String> {
             out.push(format!("position fen 7k/3P4/8/8/8/8/3p4/K7 {} - {} 0 1", side, refchess::sq_name(sq)));
         }
     }
+    // (e5) FEN text that parses and is playable, with fields that contradict the board: castling
+    // rights without king or rook at home, en-passant squares without a pawn to capture or to
+    // capture with, pawns on the first and eighth ranks, counters at their ceilings - alone,
+    // and followed by the move that the contradictory field seems to allow
+    for f in [
+        "4k3/8/8/8/8/8/8/4K3 w KQkq - 0 1",
+        "4k3/8/8/8/8/8/8/4K3 w KQkq - 0 1 moves e1g1",
+        "4k3/8/8/8/8/8/8/4K3 w KQkq - 0 1 moves e1c1",
+        "4k3/8/8/8/8/8/8/4K3 b KQkq - 0 1 moves e8g8",
+        "4k3/8/8/8/8/8/8/R3K3 w K - 0 1 moves e1g1",
+        "4k3/8/8/8/8/8/8/4K2R w Q - 0 1 moves e1c1",
+        "r3k2r/8/8/8/8/8/8/4K3 b KQkq - 0 1 moves e8c8",
+        "4k3/8/8/8/8/8/8/R2K3R w KQ - 0 1 moves d1f1",
+        "4k3/8/8/8/8/8/8/R2K3R w KQ - 0 1 moves d1b1",
+        "1k6/8/8/8/8/8/8/K1R4R w KQ - 0 1",
+        "4k3/8/8/8/8/8/8/RK5R w KQ - 0 1",
+        "k7/8/8/8/8/8/8/R3K2R b KQ - 0 1 moves a8b8 e1g1",
+        "4k2r/8/8/8/8/8/8/R3K2n w Qk - 0 1 moves e1f1 e8g8",
+        "r3k2R/8/8/8/8/8/8/4K3 b q - 0 1 moves e8c8",
+        "P3k3/8/8/8/8/8/8/p3K3 w - - 0 1",
+        "p3k3/8/8/8/8/8/8/P3K3 w - - 0 1 moves a1a2",
+        "p3k3/8/8/8/8/8/8/P3K3 b - - 0 1 moves a8a7",
+        "4k3/8/8/8/8/8/8/PPPPKPPP w - - 0 1 moves a1a3",
+        "pppp1ppp/4k3/8/8/8/8/4K3/8 b - - 0 1 moves a8a6",
+        "4k3/8/8/8/8/8/8/4K3 w - e3 0 1",
+        "4k3/8/8/8/8/8/8/4K3 w - e6 0 1",
+        "4k3/8/8/3pP3/8/8/8/4K3 w - e6 0 1 moves e5e6",
+        "4k3/8/8/4P3/8/8/8/4K3 w - d6 0 1 moves e5d6",
+        "4k3/8/8/4P3/8/8/8/4K3 w - f6 0 1 moves e5f6",
+        "4k3/8/8/3pP3/8/8/8/4K3 w - d3 0 1 moves e5d6",
+        "4k3/8/8/3Pp3/8/8/8/4K3 w - e6 0 1 moves d5e6",
+        "4k3/8/4p3/3P4/8/8/8/4K3 w - e6 0 1 moves d5e6",
+        "4k3/8/4n3/3Pp3/8/8/8/4K3 w - e6 0 1 moves d5e6",
+        "4k3/8/8/8/3pP3/8/8/4K3 b - e3 0 1 moves d4e3",
+        "4k3/8/8/8/3p4/8/8/4K3 b - e3 0 1 moves d4e3",
+        "4k3/8/8/8/3p4/4P3/8/4K3 b - e3 0 1 moves d4e3",
+        "4k3/8/8/8/8/8/8/4K3 b - a3 0 1",
+        "4k3/8/8/8/8/8/8/4K3 w - h6 0 1",
+        "rnbqkbnr/pppppppp/8/8/8/8/PPPPPPPP/RNBQKBNR w KQkq e3 0 1",
+        "rnbqkbnr/pppppppp/8/8/8/8/PPPPPPPP/RNBQKBNR w KQkq e6 0 1 moves d2d4",
+        "rnbqkbnr/pppppppp/8/8/8/8/PPPPPPPP/RNBQKBNR b KQkq e3 0 1 moves d7d5",
+        "4k3/8/8/8/8/8/8/4K3 w - - 100 1",
+        "4k3/8/8/8/8/8/8/4K3 w - - 65535 65535 moves e1e2 e8e7",
+        "4k3/8/8/8/8/8/8/4K3 w - - 4294967295 4294967295 moves e1e2 e8e7",
+        "4k3/8/8/8/8/8/8/4K3 b - - 0 4294967295 moves e8e7 e1e2",
+        "4k3/8/8/8/8/8/8/4K3 w - - 18446744073709551615 18446744073709551615 moves e1e2 e8e7",
+        "rnbqkbnr/pppppppp/8/8/8/8/PPPPPPPP/RNBQKBNR w KQkq - 18446744073709551615 1",
+        "rnbqkbnr/pppppppp/8/8/8/8/PPPPPPPP/RNBQKBNR w KQkq - 18446744073709551615 1 moves g1f3",
+        "rnbqkbnr/pppppppp/8/8/8/8/PPPPPPPP/RNBQKBNR w KQkq - 0 18446744073709551615",
+        "rnbqkbnr/pppppppp/8/8/8/8/PPPPPPPP/RNBQKBNR w KQkq - 0 18446744073709551615 moves e2e4 e7e5",
+        "rnbqkbnr/pppppppp/8/8/8/8/PPPPPPPP/RNBQKBNR b KQkq - 18446744073709551614 18446744073709551615 moves g8f6",
+        "rnbqkbnr/pppppppp/8/8/8/8/PPPPPPPP/RNBQKBNR w KQkq - 9223372036854775807 9223372036854775808 moves g1f3 g8f6",
+        "4k3/8/8/8/8/8/8/4K3 w - - 18446744073709551615 1",
+        "4k3/8/8/8/8/8/8/4K3 b - - 0 18446744073709551615",
+        "R3k3/8/8/8/8/8/8/4K2r w - - 0 1",
+        "k7/8/8/8/8/8/8/K7 w - - 0 1",
+        "kK6/8/8/8/8/8/8/8 w - - 0 1",
+        "8/8/8/8/8/8/8/kK6 b - - 0 1",
+    ] {
+        out.push(format!("position fen {}", f));
+    }
     // (d) numeric abuse
     for n in ["-1", "0", "+5", "2147483647", "2147483648", "4294967296", "18446744073709551615", "18446744073709551616", "1e9", "0x10", "１", "", " ", "99999999999999999999999999999999999999", "-0", "3.5"] {
         out.push(format!("go depth {}", n));
@@ -261,7 +322,7 @@ pub fn make(rng: &mut Rng64, valid: &[String]) -> String {
             let mut toks: Vec<String> = base.split_ascii_whitespace().map(|s| s.to_string()).collect();
             if !toks.is_empty() {
                 let i = rng.below(toks.len() as u64) as usize;
-                toks[i] = rng.pick(&["-1", "99999999999999999999", "4294967296", "18446744073709551616", "1e9", "+1", "00000000000000000000000000000001"]).to_string();
+                toks[i] = rng.pick(&["-1", "99999999999999999999", "4294967296", "18446744073709551616", "18446744073709551615", "9223372036854775807", "1e9", "+1", "00000000000000000000000000000001"]).to_string();
             }
             toks.join(" ")
         }
